@@ -310,3 +310,45 @@ Theorem add_escrow_debit_credit : forall pr s m d a s',
                  ldeb s' = ldeb s /\ lq s' = lq s.
 Proof. exact add_escrow_debit_credit_l. Qed.
 Print Assumptions add_escrow_debit_credit.
+
+(* TransferFromCommon (escrowed rewards from slashed funds, state.go:953):
+   conservation, and: the entity receives exactly the commission share
+   t*rate/denominator unless the pool has NO shares (then everything is
+   commission); the rest goes to the pool balance without shares, also for a
+   pool slashed to zero with shares outstanding; the commission is deposited at
+   most pro rata, or stays liquid only when the pool is still dead. *)
+Theorem transfer_from_common_spec : forall cd a common amount escrow rate,
+  let r := transfer_from_common cd a common amount escrow rate in
+  let t := N.min common amount in
+  ((t = 0 \/ trcode r <> COk) -> tracct r = a /\ trcommon r = common /\ trmoved r = 0) /\
+  (trcode r = COk -> t <> 0 ->
+     trmoved r = t /\ trcommon r = common - t /\
+     tagen (tracct r) + bal (tapool (tracct r)) + trcommon r = tagen a + bal (tapool a) + common /\
+     tsh (tapool (tracct r)) = tsh (tapool a) + trminted r /\
+     taself (tracct r) = taself a + trminted r /\
+     (escrow = false -> tracct r = mkTA (tagen a + t) (tapool a) (taself a)) /\
+     (escrow = true ->
+        trcom r <= t /\
+        (tsh (tapool a) <> 0 -> trcom r = t * rate / cd) /\
+        (tsh (tapool a) = 0 -> trcom r = t) /\
+        bal (tapool a) + (t - trcom r) <= bal (tapool (tracct r)) /\
+        ((tagen (tracct r) = tagen a /\ bal (tapool (tracct r)) = bal (tapool a) + t /\
+          (tsh (tapool a) <> 0 ->
+           trminted r * (bal (tapool a) + (t - trcom r)) <= trcom r * tsh (tapool a))) \/
+         (tagen (tracct r) = tagen a + trcom r /\ trminted r = 0 /\
+          bal (tapool a) = 0 /\ t - trcom r = 0 /\ tsh (tapool a) <> 0 /\
+          bal (tapool (tracct r)) = 0)))).
+Proof. exact tfc_spec. Qed.
+Print Assumptions transfer_from_common_spec.
+
+(* fairness of an escrowed reward: price and every holder's worth do not fall,
+   and with shares outstanding every holder of u shares can redeem at least
+   its pro-rata part of balance + non-commission part *)
+Theorem transfer_from_common_holders_get_noncommission : forall cd a common amount escrow rate u,
+  let r := transfer_from_common cd a common amount escrow rate in
+  price_le (tapool a) (tapool (tracct r)) /\
+  worth (tapool a) u <= worth (tapool (tracct r)) u /\
+  (trcode r = COk -> escrow = true -> tsh (tapool a) <> 0 ->
+   u * (bal (tapool a) + (trmoved r - trcom r)) / tsh (tapool a) <= worth (tapool (tracct r)) u).
+Proof. exact tfc_holders_get_noncommission_l. Qed.
+Print Assumptions transfer_from_common_holders_get_noncommission.
